@@ -63,12 +63,12 @@ type LStream struct {
 	ID uint32
 
 	// implementation -> peer
-	Grants        int64 // Σ increments the peer sent on this stream
-	Recv          int64 // Σ flow-controlled bytes received (payload + padding)
-	Got           int64 // payload bytes received
-	Frames        int64 // DATA frames received
-	Ended         bool  // END_STREAM received (DATA or HEADERS)
-	ImplReset     bool  // RST_STREAM received
+	Grants        int64           // Σ increments the peer sent on this stream
+	Recv          int64           // Σ flow-controlled bytes received (payload + padding)
+	Got           int64           // payload bytes received
+	Frames        int64           // DATA frames received
+	Ended         bool            // END_STREAM received (DATA or HEADERS)
+	ImplReset     bool            // RST_STREAM received
 	ImplResetCode http2.ErrCode   // code of the first RST_STREAM
 	Resets        []http2.ErrCode // codes of all RST_STREAM frames received (first 16)
 	HasExpect     bool
